@@ -211,6 +211,27 @@ for k, v in TECH_ADD11.items():
     t, txt, note, ref = CLAIMED[k]
     CLAIMED[k] = (t + v, txt, note, ref)
 
+TECH_ADD12 = {
+ "C01": "; no loader is picked out of a list by an index that comes from a map lookup or a remembered field (R01.13)",
+ "C03": "; comparators that order reflect map keys do not compare reflect.Value.String() of keys whose kind is not known to be String (R03.3)",
+ "C04": "; a successful return of a Write / WriteString method reports len of its argument, never the count of a copy (R04.14)",
+ "C05": "; reflect.Value.FieldByIndex (not Err) on render paths (R05.18); every store into a map field of a render context is preceded, in the function, by an assignment or nil test of the map, or every function that takes a context out of the pool gives the field a non-nil map on every path (R05.19, must-dataflow with a non-nil mode); `!(A && B)` / `A || B` refine token-index facts by joining the alternatives (R05.1)",
+ "C06": "; R06.9 follows helpers that render what they are handed",
+ "C08": "; each Node-typed field of an operator node receives one and the same constructor parameter on every path (R08.19)",
+ "C09": "; R09.1 follows helpers that evaluate one condition and answer with toBool",
+ "C10": "; in functions that parse a source no failing return is control dependent on a value computed from the parsed tree (R10.15)",
+ "C11": "; a lookup of a name in the globals is dominated by a lookup of it in the context's own variables, in the function or at every call site of the helper (R11.13); what IncludeNode.Render and its private helpers write to the page is not a slice or trimmed form of rendered bytes (R11.14); a context reached by walking parent links to their end is read only inside that walk (R11.15)",
+ "C12": "; the store of a macro definition into the macro table is not controlled by a lookup of that table (R12.13)",
+ "C13": "; kind predicates count for R13.1 only when the parser asks them; loops that apply a per-token pass, predicate-valued kind tests and byte-predicate trim loops are understood (R13.2)",
+ "C14": "; a field that a function increments and decrements (a depth counter) is decremented on every path from the increment to a successful return (R14.14)",
+ "C15": "; every read of the template table whose result is handed out is dominated by the cache flag, also outside Engine.Load (R15.4); loaders are not selected by remembered positions (R15.16)",
+ "C18": "; values copied from the caller's map into a context are the values read, not call results (R18.5); pointer-receiver methods of foreign types called on data values are read-only ones (R18.6)",
+ "C19": "; no strconv.ParseInt / ParseUint with constant base 0 on render paths (R19.8)",
+}
+for k, v in TECH_ADD12.items():
+    t, txt, note, ref = CLAIMED[k]
+    CLAIMED[k] = (t + v, txt, note, ref)
+
 NOT_YET = "static rule for this property not implemented yet at this commit (planned, see DESIGN.md §2)"
 NA = {}
 
